@@ -43,6 +43,7 @@ theorem body_load_eq : Gen.ReaderTmpl.body_load = Ref.ReaderTmpl.body_load := rf
 theorem body_loadFirst_eq : Gen.ReaderTmpl.body_loadFirst = Ref.ReaderTmpl.body_loadFirst := rfl
 theorem body_loadSecond_eq : Gen.ReaderTmpl.body_loadSecond = Ref.ReaderTmpl.body_loadSecond := rfl
 theorem body_next_eq : Gen.ReaderTmpl.body_next = Ref.ReaderTmpl.body_next := rfl
+theorem body_Next_eq : Gen.ReaderTmpl.body_Next = Ref.ReaderTmpl.body_Next := rfl
 theorem body_Retract_eq : Gen.ReaderTmpl.body_Retract = Ref.ReaderTmpl.body_Retract := rfl
 theorem body_Lexeme_eq : Gen.ReaderTmpl.body_Lexeme = Ref.ReaderTmpl.body_Lexeme := rfl
 theorem body_Skip_eq : Gen.ReaderTmpl.body_Skip = Ref.ReaderTmpl.body_Skip := rfl
